@@ -494,15 +494,34 @@ func genCall(r *rand.Rand, kind, name string) string {
 	return strings.TrimSpace(name + " " + strings.Join(args, " , "))
 }
 
+func sprinklePolicies(r *rand.Rand, v *V) {
+	if (v.T == 'K' || v.T == 'C') && r.Intn(3) == 0 {
+		v.Cfg.Vpf = 1 + r.Intn(2)
+	}
+	if v.T == 'K' && v.Cfg.Kind != 6 && r.Intn(5) == 0 {
+		v.Cfg.Rpf = 1 + r.Intn(2)
+	}
+	for i := range v.Xs {
+		sprinklePolicies(r, &v.Xs[i])
+	}
+}
+
 func genSweepRecv(r *rand.Rand) (string, string) {
 	if r.Intn(3) == 0 {
 		c := genRenderCond(r, 1)
 		c.Cfg.Enc = nil
+		if r.Intn(3) == 0 {
+			sprinklePolicies(r, &c)
+		}
 		return c.String(), "cond"
 	}
 	nextLeaf = 0
 	st := genRenderStack(r, 1+r.Intn(2), kinds(r))
 	st.Cfg.Enc = nil
+	if r.Intn(3) == 0 {
+		// closures installed on some nodes (a rejecting validity policy among them): queries run them but store nothing
+		sprinklePolicies(r, &st)
+	}
 	if r.Intn(3) == 0 {
 		st.Cfg.Cap = len(st.Xs) + r.Intn(3) + 1
 	}
